@@ -33,6 +33,7 @@ GridThorough == GridQuick \cup
 GridMutant == { J(<<2, 2>>, 3, 2, 2), J(<<2>>, 3, 4, 3) }
 
 Thetas == << <<0, 1>>, <<1, 8>>, <<1, 4>>, <<1, 2>>, <<3, 4>>, <<1, 1>> >>
+ThetasThorough == << <<0, 1>>, <<1, 8>>, <<1, 4>>, <<3, 8>>, <<1, 2>>, <<5, 8>>, <<3, 4>>, <<7, 8>>, <<1, 1>> >>
 
 VARIABLES inst,    \* the instance
           post,    \* post[s] = sequence of <<genotype, count>>, genotypes in increasing VCF rank
